@@ -11,7 +11,8 @@ ID = 'C05'
 TITLE = 'merging is local (wrap under a key chain, sibling independence)'
 RULE = ('stage sequences of 1-4 mapping documents with priority / !del / !merge / !new / !notnew tags at any depth, a wrapping key chain of '
         'length 1-3 drawn from the documents\' own key alphabet, optional unrelated sibling stage sequence under another key, optional injective renaming of the string keys (new names biased towards '
-        'spellings of paths existing elsewhere: a.b, k[0]); non-trivial = '
+        'spellings of paths existing elsewhere: a.b, k[0]), optional yaml alias placing a container of an earlier document under a further key; '
+        'frame relation: paths the last document neither mentions nor has below a deleting node are unchanged; non-trivial = '
         '>=2 stages and a deleting node or priority tag at depth >=1 in the unwrapped documents; distinct = hash of the case')
 BUDGET = {'quick': (4, 500), 'thorough': (16, 8000)}
 ASSUMPTIONS = ['documented exception: if a stage root is an explicit !del and the unwrapped result is empty the wrapped key may be removed',
@@ -83,6 +84,15 @@ def _case(draw):
                 node = tdoc.raw(src, '!prev')
                 key = 'moved'
             d['items'] = [kv for kv in d['items'] if kv[0] != key] + [[key, node]]
+    if len(docs) >= 2 and not spell and draw(st.integers(0, 3)) == 0:
+        # a container of an earlier document (tagged or not) is used again, through a yaml alias, under a further key of that document:
+        # what later documents write below one place must not show at the other (frame relation)
+        di = draw(st.integers(0, len(docs) - 2))
+        cands = [n for p_, n in tdoc.walk(docs[di]) if p_ and n['t'] in ('map', 'seq') and n['items'] and not n.get('tag')]
+        if cands:
+            tgt = cands[draw(st.integers(0, len(cands) - 1))]
+            tgt['anchor'] = 'n0'
+            docs[di]['items'] = [kv for kv in docs[di]['items'] if kv[0] != 'zal'] + [['zal', {'t': 'alias', 'name': 'n0'}]]
     has_prev = any(n.get('tag') == '!prev' for d in docs for _, n in tdoc.walk(d))
     # wrapping keys: the documents' own alphabet, plus (unless a !prev path would have to spell them) keys that are not plain names
     exotic = [] if has_prev else ['my-key', 'a.b', 'model v2', 'x[0]', '0']
@@ -194,6 +204,45 @@ def classify(docs):
     return nt, labels
 
 
+def untouched_paths(last, before):
+    """Minimal paths of the result built so far (`before`, plain data) that the document `last` does not mention and that are not
+    below a deleting (or replacing) node of it: children of a merging mapping of `last` that `last` has no key for."""
+    out = []
+
+    def rec(n, cur, path, inherited):
+        if n['t'] != 'map' or str(n.get('tag', '')).startswith('!'):
+            return                                  # lists delete by default, scalars / operators replace: nothing below is claimed
+        deleting = n['del'] if n.get('del') is not None else inherited
+        if deleting:
+            return
+        if isinstance(cur, dict):
+            mentioned = [k for k, _ in n['items']]
+            for k, v in cur.items():
+                if not any(k == m and type(k) is type(m) for m in mentioned):
+                    if not any(k == m for m in mentioned):      # (1 / True / 1.0 spell one key)
+                        out.append(path + [k])
+            for k, v in n['items']:
+                if k in cur and any(k == c and type(k) is type(c) for c in cur):
+                    rec(v, cur[k], path + [k], n['del'] if n.get('del') is not None else inherited)
+        elif isinstance(cur, list):
+            idx = [k for k, _ in n['items']]
+            if any(not isinstance(k, int) or isinstance(k, bool) or k < 0 or k >= len(cur) for k in idx):
+                return                              # negative / invalid indices: not claimed
+            for i, v in enumerate(cur):
+                if i not in idx:
+                    out.append(path + [i])
+            for k, v in n['items']:
+                rec(v, cur[k], path + [k], n['del'] if n.get('del') is not None else inherited)
+    rec(last, before, [], None)
+    return out
+
+
+def _at(val, path):
+    for c in path:
+        val = val[c]
+    return val
+
+
 def run_case(case):
     docs, chain, sib = case['docs'], case['chain'], case['sib']
     texts = [tdoc.render(d) for d in docs]
@@ -206,6 +255,8 @@ def run_case(case):
     if any(isinstance(k, str) and not k.replace('_', 'a').isalnum() for k in chain):
         labels.add('non-identifier-wrapping-key')
     labels.add('base-' + base[0])
+    if any(n['t'] == 'alias' for d in docs for _, n in tdoc.walk(d)):
+        labels.add('yaml-alias-of-a-container')
     src = '\nunwrapped sources:\n' + '\n'.join(texts) + '\nwrapped sources:\n' + '\n'.join(wtexts)
 
     def expect_wrapped(val):
@@ -228,6 +279,25 @@ def run_case(case):
             raise Violation(f'C05: unwrapped build fails with {base[1]} but wrapped under {chain} it succeeds: {wrapped[1]!r}{src}')
         if wrapped[1] != base[1]:
             raise Violation(f'C05: unwrapped build fails with {base[1]}, wrapped under {chain} with {wrapped[1]}{src}')
+    # frame: paths the last document does not mention, and that are not below a deleting node of it, come out unchanged
+    has_ops = any(str(n.get('tag', '')) in ('!clear', '!append', '!extend', '!prev') for _, n in tdoc.walk(docs[-1]))
+    if len(docs) >= 2 and base[0] == 'ok' and not has_ops:
+        before = _build(texts[:-1])
+        if before[0] == 'ok' and isinstance(before[1], dict):
+            paths = untouched_paths(docs[-1], before[1])
+            for p_ in paths:
+                try:
+                    now = _at(base[1], p_)
+                except (KeyError, IndexError, TypeError):
+                    raise Violation(f'C05: path {p_} is neither mentioned by the last document nor below a deleting node of it, but it is gone '
+                                    f'from the result {base[1]!r} (before the last document: {before[1]!r}){src}')
+                if O.canon(now) != O.canon(_at(before[1], p_)):
+                    raise Violation(f'C05: path {p_} is neither mentioned by the last document nor below a deleting node of it, but its value '
+                                    f'changed from {_at(before[1], p_)!r} to {now!r}{src}')
+            if paths:
+                labels.add('frame-checked')
+                if any(len(p_) >= 2 for p_ in paths):
+                    labels.add('frame-path-depth>=2')
     if case.get('rename'):
         ren = {a: b for a, b in case['rename']}
         rtexts = [tdoc.render(rename_doc(d, ren)) for d in docs]
